@@ -290,6 +290,9 @@ def run(tier):
     # ChaCha20-Poly1305 records: every ciphertext bit must enter the authenticator at its own weight (shared with C12)
     from .c12 import poly1305_block_decoding
     poly1305_block_decoding(chk)
+    # the whole 64-bit sequence number enters the MAC / AAD / nonce: a record cannot be replayed 2^32 records later (shared with C20)
+    from .c20 import seq_encoding
+    seq_encoding(chk)
     from .. import lints as _lints_ir
     _lints_ir.ignored_result_regression(chk, ['src/ssl/ssl_rec'])
     return chk.finish()
